@@ -145,31 +145,26 @@ inductive DocItem where
   | exec (oe : Bool) (d : Ast.Definition)
   /-- a type-system definition or extension, up to a leading `&` / `|` and a root operation type without its name -/
   | loose (l : LooseDef)
-  /-- KNOWN FINDING accepts-description-before-fragment: `"d" fragment on T …` -/
-  | descFragment (d nm tc : Str) (dirs : List Ast.Directive) (sels : Ast.Sels)
 
 def DocItem.toks : DocItem → List Ast.Tok
   | .exec oe d => Ast.tDefinition oe d
   | .loose l => l.toks
-  | .descFragment d nm tc dirs sels => .str d :: .name nm :: .name sOnP :: .name tc :: (Ast.tDirectives dirs ++ Ast.tSelSet sels)
 
 /-- what is known of the parts: selection sets are non-empty, a fragment is not named `on` -/
 def DocItem.ok : DocItem → Prop
   | .exec _ d => (∃ ty name vars dirs sels, d = .operation ty name vars dirs sels ∧ sels ≠ .nil) ∨
       (∃ name tc dirs sels, d = .fragment name tc dirs sels ∧ sels ≠ .nil ∧ name ≠ sOnP)
   | .loose _ => True
-  | .descFragment _ nm _ _ sels => sels ≠ .nil ∧ nm ≠ sOnP
 
 def docToks (its : List DocItem) : List Ast.Tok := (its.map DocItem.toks).flatten
 
-/-- **IsAcceptedDocument**: `Definition+`, each definition in either form, up to the three documented liberties -/
+/-- **IsAcceptedDocument**: `Definition+`, each definition in either form, up to the two documented liberties -/
 def IsAcceptedDocument (x : List Ast.Tok) : Prop := ∃ its : List DocItem, its ≠ [] ∧ (∀ i ∈ its, i.ok) ∧ x = docToks its
 
 /-- the definition C08's printer would write, when the accepted text uses none of the liberties -/
 def DocItem.strict : DocItem → Option Ast.Item
   | .exec oe d => some (oe, d)
   | .loose l => l.strict.map (fun d => (false, d))
-  | .descFragment .. => none
 
 def strictItems : List DocItem → Option (List Ast.Item)
   | [] => some []
@@ -185,7 +180,6 @@ theorem DocItem.toks_strict (i : DocItem) (a : Ast.Item) (h : i.strict = some a)
     simp only [DocItem.strict, Option.map_eq_some_iff] at h
     obtain ⟨d, hd, rfl⟩ := h
     exact l.toks_strict d hd
-  | descFragment d nm tc dirs sels => simp [DocItem.strict] at h
 
 theorem strictItems_toks : ∀ (its : List DocItem) (items : List Ast.Item), strictItems its = some items →
     docToks its = Ast.itemsToks items ∧ items.length = its.length
@@ -209,12 +203,11 @@ theorem shorthand_toks (sels : Ast.Sels) : Ast.tDefinition true (.operation .que
   simp [Ast.tDefinition, Ast.isShorthand, Ast.tVarDefs, Ast.tDirectives]
 
 theorem isDef_item (x : List Ast.Tok) (h : IsDef x) : ∃ i : DocItem, i.ok ∧ x = i.toks := by
-  rcases h with ⟨sels, hne, ⟨ty, name, vars, dirs, e⟩ | e⟩ | ⟨name, tc, dirs, sels, hne, hn, e⟩ | ⟨l, e⟩ | ⟨d, nm, tc, dirs, sels, hne, hn, e⟩
+  rcases h with ⟨sels, hne, ⟨ty, name, vars, dirs, e⟩ | e⟩ | ⟨name, tc, dirs, sels, hne, hn, e⟩ | ⟨l, e⟩
   · exact ⟨.exec false (.operation ty name vars dirs sels), Or.inl ⟨ty, name, vars, dirs, sels, rfl, hne⟩, e⟩
   · exact ⟨.exec true (.operation .query none [] [] sels), Or.inl ⟨_, _, _, _, sels, rfl, hne⟩, by rw [e]; exact (shorthand_toks sels).symm⟩
   · exact ⟨.exec false (.fragment name tc dirs sels), Or.inr ⟨name, tc, dirs, sels, rfl, hne, hn⟩, e⟩
   · exact ⟨.loose l, trivial, e⟩
-  · exact ⟨.descFragment d nm tc dirs sels, ⟨hne, hn⟩, e⟩
 
 theorem isDefs_items (x : List Ast.Tok) (h : IsDefs x) : ∃ its : List DocItem, (∀ i ∈ its, i.ok) ∧ x = docToks its := by
   obtain ⟨items, rfl, hall⟩ := h
@@ -239,7 +232,7 @@ theorem isDocumentToks_accepted (x : List Ast.Tok) (h : IsDocumentToks x) : IsAc
 
 /-- **document_accepted_is_in_grammar** (unconditional).  If the model of `Parser::parse` returns a tree and reports
     no error, the source lexes cleanly and its significant tokens are an accepted document `docToks its` followed by the
-    end-of-input token.  Moreover, when `its` uses none of the three liberties (`strictItems its = some items`), the
+    end-of-input token.  Moreover, when `its` uses neither of the two liberties (`strictItems its = some items`), the
     tokens are `Ast.itemsToks items` — every definition printed by C08's `tDefinition`, in the long or shorthand form —
     and C08's reference parser `pDocument` returns exactly the definitions of `items` (given their well-formedness,
     which the per-production lemmas do not export, and `FollowOk`). -/
